@@ -138,6 +138,7 @@ def gen(seed, run, tier='quick'):
          'clock': rng.choice([0, 1, 3]),
          'tick': rng.choice([0, 0, 1, 2]),
          'clockfail': rng.choice([0, 0, 1, 1]),
+         'clockupdate': rng.choice([0, 0, 1, 1]),
          'bad_validity': rng.choice([0, 1, 2]),
          'datetime_validity': rng.choice([0, 0, 1]),
          'late': rng.choice([1, 2]) if late else 0,
@@ -300,6 +301,19 @@ def gen(seed, run, tier='quick'):
             ops.append(['tick', rng.choice([1, 1, 2, 3]),
                         some_date().isoformat(), ci])
             ops.append(['get', ci, a, b, None])
+        elif k == 'clockupdate':
+            # the configured callable loads rates into the converter before
+            # it answers (a service that fetches the day's rates when first
+            # asked for the date): an update made while a lookup runs
+            a, b = rng.sample(range(n_cur), 2)
+            ops.append(['clockupdate', ci,
+                        _spell_validity(rng, convs[ci]['kind'], some_date()),
+                        rate_specs(ci)])
+            if rng.random() < 0.6:
+                ops.append(['get', ci, a, b, None])
+            else:
+                ops.append(['call', ci, a, b, None,
+                            f"{rng.randrange(1, 10 ** 5)}/100"])
         elif k == 'clockfail':
             # the configured callable fails during the next default-date
             # lookup
@@ -638,6 +652,8 @@ def execute(h):
                                     kind=models[ci].kind)
         return core.digest(vec)
 
+    hooked = {}
+
     def do_lookup(i, op):
         ci = op[1] % len(convs)
         a, b = op[2] % n_cur, op[3] % n_cur
@@ -646,6 +662,11 @@ def execute(h):
         clock = cclk[ci]
         clock.reset_trace()
         today0 = clock.today
+        pre = None
+        if clock.hook is not None and d is None:
+            # an update will be made from inside the lookup: the answer may
+            # reflect the state before it or the state after it
+            pre = expected_rate(ci, a, b, today0, count=False)
         if op[0] == 'get':
             o = observe(lambda: canon_rate(
                 conv.get_rate(curs[a], curs[b], d)))
@@ -657,6 +678,17 @@ def execute(h):
             bump(faults, 'clock_tick_during_lookup' if not clock.script
                  else 'clock_tick_armed_but_not_reached')
         clock.disarm()
+        clock.hook = None
+        if ci not in hooked:
+            pre = None
+        for cj in list(hooked):
+            bump(faults, 'update_made_by_the_date_callable_during_lookup')
+            validity, specs, out = hooked.pop(cj)
+            must = models[cj].update(validity, specs)
+            if (out[0] == 'ok') != must:
+                violate('update', 'accepted_invalid' if out[0] == 'ok'
+                        else 'rejected_valid', i, validity=validity,
+                        observed=list(out), via='date callable')
         failed, clock.raised, clock.fail_next = clock.raised, None, None
         if failed is not None:
             # the callable gave no date: whatever is answered was not
@@ -679,6 +711,16 @@ def execute(h):
             e = expected_rate(ci, a, b, dd)
             if e[0] == 'unjudged':
                 return o
+            if op[0] == 'call':
+                if e[0] == 'one':
+                    e = ('amount', _num(money.amount))
+                elif e[0] == 'none':
+                    e = ('exc', 'UnitConversionError')
+                else:
+                    e = ('amount', _num(Fraction(e[3]) * money.amount))
+            exps.append(e)
+        if pre is not None and pre[0] != 'unjudged':
+            e = pre
             if op[0] == 'call':
                 if e[0] == 'one':
                     e = ('amount', _num(money.amount))
@@ -762,6 +804,10 @@ def execute(h):
         log.append([-1, sweep(-1)])
         for i, op in enumerate(ops):
             kind = op[0]
+            if kind not in ('get', 'call'):
+                # a loading callable serves the lookup that follows at once
+                for c_ in cclk:
+                    c_.hook = None
             if kind == 'update':
                 ci = op[1] % len(convs)
                 model = models[ci]
@@ -944,6 +990,24 @@ def execute(h):
                     bump(faults, 'clock_jump_forward')
                 clock.set(d)
                 out = 'set'
+            elif kind == 'clockupdate':
+                ci = op[1] % len(convs)
+                base = cfg['convs'][ci]['base'] % n_cur
+                specs = [[[s[0][0] % n_cur, s[0][1]], s[1], s[2]]
+                         for s in op[3] if s[0][0] % n_cur != base]
+                if cfg['convs'][ci]['clock'] == 'callable' and specs and \
+                        RefRates.parse_validity(op[2]) is not None:
+                    lib = [(curs[c] if how == 'obj' else curs[c].symbol,
+                            mk_amount(amt), mk_um(um))
+                           for (c, how), amt, um in specs]
+
+                    def load(ci=ci, v=op[2], specs=specs, lib=lib):
+                        hooked[ci] = (v, specs, observe(lambda: (
+                            'ok', convs[ci].update(mk_validity(v), lib))))
+                    cclk[ci].hook = load
+                    out = 'armed'
+                else:
+                    out = 'not_armed'
             elif kind == 'clockfail':
                 ci = op[2] % len(convs)
                 if cfg['convs'][ci]['clock'] == 'callable':
